@@ -71,8 +71,10 @@ let tail k mode a b =
 let merr_name = function
   | P.DoubleFree -> "double_free" | P.FreeOfExternal -> "free_of_caller_memory"
   | P.UseAfterFree -> "use_after_free" | P.NullDeref -> "null_deref"
-  | P.IndexOutOfBounds -> "index_out_of_bounds" | P.NoSuchObject -> "no_such_object"
-  | P.SlotOccupied -> "slot_occupied" | P.NoSuchArray -> "no_such_array" | P.BadShape -> "bad_shape"
+  | P.IndexOutOfBounds -> "index_out_of_bounds" | P.BadShape -> "bad_shape"
+  (* the case names a variable or array that is not there: the harness cannot
+     even express the call *)
+  | P.NoSuchObject | P.SlotOccupied | P.NoSuchArray -> "usage"
 
 let rec index_of x l i = match l with [] -> -1 | y :: r -> if x = y then i else index_of x r (i + 1)
 
@@ -102,8 +104,8 @@ let state_str (st : P.state) =
     match P.ext_cells st (nat_of_int i) with
     | Some cs -> Printf.sprintf "E%d=%s" i (cells_str cs)
     | None -> Printf.sprintf "E%d=?" i in
-  let es = String.concat " " (List.mapi ext st.P.exts) in
-  Printf.sprintf "live=%d memerr=none | %s | %s" (int_of_nat (P.live_internal st)) slots es
+  let es = String.concat "" (List.map (fun e -> " " ^ e) (List.mapi ext st.P.exts)) in
+  Printf.sprintf "live=%d memerr=none | %s |%s" (int_of_nat (P.live_internal st)) slots es
 
 let parse_op c tag =
   let name = next c in
